@@ -5,6 +5,7 @@ from vf import gens, oracles as O
 from vf.props import c01
 from vf.runner import hyp_run, run_cases, guard, fail, exc_failure
 
+THOROUGH_SCALE = 8      # multiplies every generated-case budget of the thorough tier
 RULE = ("1-50 UBIs (random cells/orientations of a common cell family, plus near-twins = another grain x a lattice "
         "symmetry x (1+1e-4), exact duplicates, 2x sub-lattices) x peaks 1..1.2e5 (sizes straddling multiples of the "
         "4096 OpenMP chunk) = lattice points of a random owner + noise, or spurious x tol in [0.005,0.4] x a "
